@@ -35,10 +35,12 @@ FILLER = {
     "digits": "0123456789 ",
     "qmarks": "?x?y ",
     "mixed": LOW + "+-;{}(),=<>#&|0123456789 ",
+    "digraphs": "<%:>x ",            # <% %> <: :> %: : translated by the tokenizer even inside comments and literals
 }
 FILLER_WORDS = {
     "keywords": ["if", "for", "return", "int", "while", "else", "goto", "switch", "typedef", "struct", "void", "sizeof", "break"],
     "include": ["#include", "<x.h>", "#define", "#if", "#endif", "\"y.h\"", "# include"],
+    "trigraphs": ["??=", "??(", "??)", "??<", "??>", "??!", "??-", "a", "?"],      # not ??/ (a backslash) and not ??' (a quote)
 }
 FILLER_CLASSES = list(FILLER) + list(FILLER_WORDS) + ["quote"]
 
